@@ -31,7 +31,15 @@ inductive Expr where
   | mul (a b : Expr)
   deriving Repr
 
-abbrev Rules := List (Field × Expr)
+/-- a rule: `function () { return body }`, or with a guard `function () { if guard > 0 { return
+body } }` — a rule that yields nothing when the guard fails (then nothing is stored and the field
+keeps whatever it had) -/
+structure Rule where
+  guard : Option Expr := none
+  body : Expr
+  deriving Repr
+
+abbrev Rules := List (Field × Rule)
 
 /-- a Suneido value of the suite: an integer or "" -/
 abbrev Val := Option Int
@@ -125,11 +133,18 @@ def getN : Nat → Rules → List Field → Rec → Field → Rec × Option Val
       let r := { r with invalid := r.invalid.erase k }
       match lk rules k with
       | none => (r, result)
-      | some e =>
+      | some rule =>
         if k ∈ act then (r, result)
         else
-          let x := evalE (fun r f => let y := getN n rules (k :: act) r f; (y.1, y.2.getD none)) e r
-          ({ x.1 with vals := setv x.1.vals k x.2 }, some x.2)
+          let getf := fun (r : Rec) (f : Field) =>
+            let y := getN n rules (k :: act) r f; (y.1, y.2.getD none)
+          let g : Rec × Bool := match rule.guard with
+            | none => (r, true)
+            | some ge => let x := evalE getf ge r; (x.1, decide (x.2.getD 0 > 0))
+          if g.2 then
+            let x := evalE getf rule.body g.1
+            ({ x.1 with vals := setv x.1.vals k x.2 }, some x.2)
+          else (g.1, result) -- `val == nil`: nothing stored, the old (possibly stale) value stays
     else (r, result)
 
 /-- `Copy()`: values, dependencies and invalid set are copied; observers and the pending queue
